@@ -14,22 +14,24 @@
 package c19
 
 import (
+	"encoding/json"
 	"fmt"
 	"os"
-	"time"
 	"sort"
 	"strings"
 	"testing"
+	"time"
 
 	"pgregory.net/rapid"
 
 	"verifharness/internal/pbt"
+	"verifharness/internal/proxyfix"
 	sh "verifharness/internal/sesshist"
 )
 
 const (
-	maxExecMs = 120
-	stallMs   = 380
+	maxExecMs = 200
+	stallMs   = 500
 )
 
 func profile(max int) sh.Profile {
@@ -58,7 +60,7 @@ func checkCase(c sh.Case) (o pbt.Outcome) {
 			}
 		}
 	}
-	tr := sh.Run(c, sh.Options{FinalLedger: true, ClientTimeout: 5 * time.Second})
+	tr := sh.Run(c, sh.Options{FinalLedger: true, ClientTimeout: 4 * time.Second})
 	if tr.SetupErr != "" {
 		o.Skip = "fixture: " + strings.SplitN(tr.SetupErr, ":", 2)[0]
 		return
@@ -71,14 +73,16 @@ func checkCase(c sh.Case) (o pbt.Outcome) {
 	o.NonTrivial = an.nonTrivial
 	if an.skip != "" {
 		o.Skip = an.skip
-		return
-	}
-	if an.violation != "" {
+	} else if an.violation != "" {
 		if id := classify(c, tr, an); id != "" {
 			o.Known, o.KnownWhat = id, an.violation
 		} else {
 			o.Violation = an.violation
 		}
+	}
+	if d := os.Getenv("VERIF_DEBUGDIR"); d != "" && (o.Violation != "" || o.Skip != "") {
+		cj, _ := json.Marshal(c)
+		os.WriteFile(fmt.Sprintf("%s/c19-%d.txt", d, time.Now().UnixNano()), []byte(o.Violation+o.Skip+"\n"+string(cj)+"\n"+sh.Dump(tr)), 0o644)
 	}
 	return
 }
@@ -186,7 +190,7 @@ func analyse(c sh.Case, tr *sh.Trace) *analysis {
 			}
 		}
 		if st.IOErr != "" {
-			if strings.Contains(st.IOErr, "timeout") {
+			if strings.Contains(st.IOErr, "timeout") && an.violation == "" && an.skip == "" {
 				an.skip = fmt.Sprintf("the proxy did not answer step %d within the client deadline", st.Idx)
 			}
 			lab["proxy_closed_session"] = true
@@ -317,9 +321,9 @@ type txConn struct {
 }
 
 type prediction struct {
-	leak      map[string]int64            // keep-session off: master pool name -> predicted InUse offset (lost slots minus double returns)
-	offAt     map[int]map[string]int64    // the same offsets as they stood after each step
-	abandoned map[sh.ConnKey]bool         // backend connections left behind inside their transaction (F1, F5)
+	leak      map[string]int64         // keep-session off: master pool name -> predicted InUse offset (lost slots minus double returns)
+	offAt     map[int]map[string]int64 // the same offsets as they stood after each step
+	abandoned map[sh.ConnKey]bool      // backend connections left behind inside their transaction (F1, F5)
 	f1, f2    bool
 	over      map[string]bool // keep-session: master pools that may be over-returned
 	f3, f4    bool
@@ -339,11 +343,14 @@ func predict(c sh.Case, tr *sh.Trace) *prediction {
 		ss[i] = &ps{db: "db", conns: map[string]*txConn{}}
 	}
 	cls := sh.ClassifyConns(tr.AllEvents)
+	// closedBefore: which transaction connections were already flagged closed when the current command started. A
+	// reconnect that happens inside rollback() itself (its own write hits the broken pipe) is followed by Recycle.
+	closedBefore := map[*txConn]bool{}
 	endSession := func(m *ps) {
 		// ROLLBACK / COM_QUIT / Session.Close: closed transaction connections are skipped, not recycled (F2)
 		if !c.KeepSession {
 			for sl, tc := range m.conns {
-				if tc.closed {
+				if tc.closed && closedBefore[tc] {
 					p.leak[sl+"/master"]++
 					p.f2 = true
 				}
@@ -357,6 +364,12 @@ func predict(c sh.Case, tr *sh.Trace) *prediction {
 		}
 		m := ss[st.Cmd.S]
 		inTx := m.txOpen || m.ac0
+		closedBefore = map[*txConn]bool{}
+		for _, tc := range m.conns {
+			if tc.closed {
+				closedBefore[tc] = true
+			}
+		}
 		msg := ""
 		if st.Err != nil {
 			msg = st.Err.Message
@@ -377,9 +390,14 @@ func predict(c sh.Case, tr *sh.Trace) *prediction {
 					// The session already has a connection on this slice, so it does not take another one from the pool:
 					// a new backend connection (not a health-check or KILL helper) is DirectConnection.writePacket
 					// reconnecting after "broken pipe", which leaves the DirectConnection flagged closed.
-					if cl := cls[sh.Key(e)]; heldBefore[e.Slice] && (cl == "session" || cl == "bare") {
+					if cl := cls[sh.Key(e)]; heldBefore[e.Slice] && m.conns[e.Slice] != nil && (cl == "session" || cl == "bare") {
 						m.conns[e.Slice].closed = true
 					}
+					continue
+				}
+				if e.Kind == "initdb" && c.KeepSession && m.conns[e.Slice] == nil && cls[sh.Key(e)] == "session" {
+					m.conns[e.Slice] = &txConn{conn: sh.Key(e)}
+					heldBefore[e.Slice] = true // a later connect on this slice within the same command is a reconnect
 					continue
 				}
 				if e.Kind != "query" {
@@ -387,6 +405,10 @@ func predict(c sh.Case, tr *sh.Trace) *prediction {
 				}
 				low := sh.Low(e)
 				joined := (e.Outcome == "ok" && (low == "begin" || low == "set autocommit = 0") && !c.KeepSession) || (sh.HasTag(e.SQL, st.Tag))
+				if c.KeepSession && m.conns[e.Slice] == nil {
+					// keep-session pins a connection as soon as it is taken from the pool: whatever the session sends first
+					joined = joined || cls[sh.Key(e)] == "session"
+				}
 				if joined {
 					tc := m.conns[e.Slice]
 					switch {
@@ -397,6 +419,7 @@ func predict(c sh.Case, tr *sh.Trace) *prediction {
 					case tc.conn != sh.Key(e):
 						m.conns[e.Slice] = &txConn{conn: sh.Key(e)}
 					}
+					heldBefore[e.Slice] = true // a later connect on this slice within the same command is a reconnect
 				}
 			}
 			if st.FaultFired && (st.Cmd.F.Action == sh.ActCloseBefore || st.Cmd.F.Action == sh.ActCloseAfter) {
@@ -437,7 +460,7 @@ func predict(c sh.Case, tr *sh.Trace) *prediction {
 					}
 					break
 				}
-				trigger := timeoutUn || epipe || (tc != nil && tc.closed)
+				trigger := timeoutUn || epipe || (tc != nil && closedBefore[tc]) // a reconnect during this very command shows up as "broken pipe" if the statement's own write caused it
 				if !trigger {
 					break
 				}
@@ -513,6 +536,10 @@ func predict(c sh.Case, tr *sh.Trace) *prediction {
 		p.offAt[st.Idx] = snap
 	}
 	for _, m := range ss {
+		closedBefore = map[*txConn]bool{}
+		for _, tc := range m.conns {
+			closedBefore[tc] = tc.closed
+		}
 		endSession(m) // the sessions still open at the end of the history are closed by the runner
 	}
 	return p
@@ -585,6 +612,9 @@ func classify(c sh.Case, tr *sh.Trace, an *analysis) string {
 		}
 		return "C19-F5"
 	}
+	if os.Getenv("VERIF_TRACE") != "" {
+		fmt.Printf("prediction: leak=%v abandoned=%v f1=%v f2=%v f5=%v dirty=%v\n", p.leak, p.abandoned, p.f1, p.f2, p.f5, an.dirty)
+	}
 	if !p.f1 && !p.f2 && !p.f5 {
 		return ""
 	}
@@ -624,12 +654,15 @@ func classify(c sh.Case, tr *sh.Trace, an *analysis) string {
 	return "C19-F2"
 }
 
-const rule = "C18's command machine (1-3 sessions, 1-3 slices, keep-session on in a third) plus disconnects (COM_QUIT, FIN, FIN with a statement in flight, RST) and a fault per command with probability 0.3: SQL error / socket closed before or after the reply / stall past max_sql_execute_time (120 ms) on the tagged statement, BEGIN, COMMIT, ROLLBACK, SET autocommit, the session-variable SET, COM_INIT_DB or a keep-session ping, on a slice the command touches; non-trivial = a fault fired inside an open transaction that holds another slice (or two), or during a keep-session statement"
+const rule = "C18's command machine (1-3 sessions, 1-3 slices, keep-session on in a third) plus disconnects (COM_QUIT, FIN, FIN with a statement in flight, RST) and a fault per command with probability 0.3: SQL error / socket closed before or after the reply / stall past max_sql_execute_time (200 ms) on the tagged statement, BEGIN, COMMIT, ROLLBACK, SET autocommit, the session-variable SET, COM_INIT_DB or a keep-session ping, on a slice the command touches; non-trivial = a fault fired inside an open transaction that holds another slice (or two), or during a keep-session statement"
 
 func TestC19Ledger(t *testing.T) {
+	if _, err := proxyfix.Shared(); err != nil {
+		t.Fatalf("fixture: the shared proxy did not start: %v", err) // inconclusive, not a violation
+	}
 	gen := genCase
 	if pbt.Tier() == "thorough" {
 		gen = genCaseThorough
 	}
-	pbt.Run(t, pbt.Spec{ID: "C19", Sub: "ledger", Quick: 80, Thorough: 600, Rule: rule, Floor: 0.3}, gen, checkCase)
+	pbt.Run(t, pbt.Spec{ID: "C19", Sub: "ledger", Quick: 80, Thorough: 400, Rule: rule, Floor: 0.3}, gen, checkCase)
 }
